@@ -180,3 +180,116 @@ Example c08_witness :
   | None => False
   end.
 Proof. vm_compute. split; reflexivity. Qed.
+
+(* ==== added after the audit of 2026-10-02 (selftest/audit/REPORT-2026-10-02.md) ==== *)
+Require Import Cadence.Proofs.AuditQ.
+
+(* [stuck true s] (used by c08_eventually and below) means exactly: NO background event -
+   bookkeeping increment, worker step, dequeue, helper send, completion with any outcome - is
+   enabled in s.  And a state is stuck or some background event is enabled, so a background
+   schedule that does not end in a stuck state can be prolonged: maximal = ends stuck. *)
+Theorem c08_stuck_iff : forall fixed s,
+  stuck fixed s <-> forall ev, worker_side ev -> step fixed s ev = None.
+Proof. exact stuck_iff. Qed.
+
+Theorem c08_stuck_or_progress : forall fixed s,
+  stuck fixed s \/ exists ev s', worker_side ev /\ step fixed s ev = Some (s', RNone).
+Proof. exact stuck_or_progress. Qed.
+
+(* liveness for EVERY background schedule, not only the [quiesce] scheduler: in every reachable
+   state every enabled background event strictly decreases the measure [mu] (so no infinite
+   background schedule exists), and when no background event is enabled everything accepted has
+   been delivered once, in order, the counters agree, and the worker waits (a handle is alive)
+   or has exited with the wrapped sink released (no handle left) *)
+Theorem c08_any_background_schedule : forall cap handler evs s rs,
+  run true (init_q cap handler) evs = Some (s, rs) ->
+  (forall ev s' r, worker_side ev -> step true s ev = Some (s', r) -> mu s' < mu s) /\
+  (stuck true s ->
+     pending_ids s = [] /\ map fst (q_delivered s) = seq 0 (q_accepted s) /\
+     q_submitted s = q_accepted s /\ q_drained s = q_accepted s /\ queued_now s = 0 /\
+     q_chan s = [] /\ q_pending_inc s = 0 /\ q_pill_pending s = false /\
+     (q_handles s <> 0 -> q_wk s = WRecv) /\
+     (q_handles s = 0 -> q_wk s = WExited /\ sink_released s = true)).
+Proof. exact any_background_schedule. Qed.
+
+(* the corollary: ANY sequence [wevs] of background events from a reachable state s - any order
+   of the threads, any outcomes of the wrapped sink ([finish_outs wevs] = the outcomes its
+   completions carry, in order) - is at most [mu s] (< fuel_of s) events long, continues the
+   history, leaves handles and the acceptance count alone, only extends the delivery log, by
+   exactly those outcomes; it can be prolonged unless it ends stuck; and if it ends stuck then
+   exactly the metrics pending in s were delivered, each once, in order, with exactly those
+   outcomes: everything accepted is delivered in acceptance order *)
+Theorem c08_every_background_schedule : forall cap handler evs s rs wevs s' wrs,
+  run true (init_q cap handler) evs = Some (s, rs) ->
+  Forall worker_side wevs -> run true s wevs = Some (s', wrs) ->
+  length wevs + mu s' <= mu s /\ length wevs < fuel_of s /\
+  run true (init_q cap handler) (evs ++ wevs) = Some (s', rs ++ wrs) /\
+  q_accepted s' = q_accepted s /\ q_handles s' = q_handles s /\
+  extends (q_delivered s) (q_delivered s') /\
+  map snd (q_delivered s') = map snd (q_delivered s) ++ finish_outs wevs /\
+  (stuck true s' \/ exists ev s'', worker_side ev /\ step true s' ev = Some (s'', RNone)) /\
+  (stuck true s' ->
+     length (finish_outs wevs) = length (pending_ids s) /\
+     q_delivered s' = q_delivered s ++ combine (pending_ids s) (finish_outs wevs) /\
+     map fst (q_delivered s') = seq 0 (q_accepted s) /\
+     q_submitted s' = q_accepted s /\ q_drained s' = q_accepted s /\ queued_now s' = 0 /\
+     q_chan s' = [] /\ q_pending_inc s' = 0 /\ q_pill_pending s' = false /\
+     (q_handles s <> 0 -> q_wk s' = WRecv) /\
+     (q_handles s = 0 -> q_wk s' = WExited /\ sink_released s' = true)).
+Proof. exact every_background_schedule. Qed.
+
+(* the scheduling order of the background threads is unobservable: two maximal background
+   schedules with the same outcomes end with the same log, counters, channel and worker state *)
+Theorem c08_background_schedules_agree : forall cap handler evs s rs wevs1 s1 wrs1 wevs2 s2 wrs2,
+  run true (init_q cap handler) evs = Some (s, rs) ->
+  Forall worker_side wevs1 -> run true s wevs1 = Some (s1, wrs1) -> stuck true s1 ->
+  Forall worker_side wevs2 -> run true s wevs2 = Some (s2, wrs2) -> stuck true s2 ->
+  finish_outs wevs1 = finish_outs wevs2 ->
+  q_delivered s1 = q_delivered s2 /\ q_submitted s1 = q_submitted s2 /\
+  q_drained s1 = q_drained s2 /\ q_wk s1 = q_wk s2 /\ q_chan s1 = q_chan s2 /\
+  q_handles s1 = q_handles s2 /\ q_accepted s1 = q_accepted s2.
+Proof. exact background_schedules_agree. Qed.
+
+(* non-vacuity: from the state of [c08_witness] two different maximal schedules, neither in the
+   order [quiesce] uses, with the same outcomes: same final state *)
+Example c08_every_background_schedule_witness :
+  match run true (init_q (Some 2) true)
+            [ETrySend; EClone; ETrySend; EWDequeue; EWStep; ETrySend; ETrySend; EDropH;
+             EIncSubmitted; EWFinish (SErr 7); EWDequeue; ETrySend; EDropH] with
+  | Some (s, _) =>
+    let w1 := [EWStep; EWFinish SPanic; EWDequeue; EPillSend; EIncSubmitted; EWStep; EIncSubmitted;
+               EWFinish SOk; EWDequeue; EWStep; EWFinish (SErr 3); EIncSubmitted; EWDequeue; EWStep] in
+    let w2 := [EIncSubmitted; EWStep; EIncSubmitted; EIncSubmitted; EWFinish SPanic; EWDequeue;
+               EWStep; EWFinish SOk; EPillSend; EWDequeue; EWStep; EWFinish (SErr 3); EWDequeue; EWStep] in
+    match run true s w1, run true s w2 with
+    | Some (s1, _), Some (s2, _) =>
+      (mu s, pending_ids s, internal_step true s1, internal_step true s2, q_wk s1, q_wk s2) =
+      (20, [1; 2; 3], None, None, WExited, WExited) /\
+      q_delivered s1 = [(0, SErr 7); (1, SPanic); (2, SOk); (3, SErr 3)] /\
+      q_delivered s2 = q_delivered s1 /\ finish_outs w1 = finish_outs w2 /\
+      s1 = s2
+    | _, _ => False
+    end
+  | None => False
+  end.
+Proof. exact every_background_schedule_witness. Qed.
+
+(* the OBSERVATIONS of the harness-level view (what the correspondence harness compares), not
+   only its states: an action other than ASample is its small-step event ([event_of]) followed
+   by [settle]; its observation is that event's result and never a sample; when the event is
+   not enabled the answer is RNone / no sample and the state is unchanged *)
+Theorem c08_act_spec : forall fixed s a ev, event_of a = Some ev ->
+  match step fixed s ev with
+  | Some (s1, r) => act fixed s a = (settle fixed (fuel_of s1) s1, {| ob_result := r; ob_sample := None |})
+  | None => act fixed s a = (s, {| ob_result := RNone; ob_sample := None |})
+  end.
+Proof. exact act_spec. Qed.
+
+(* a script: one observation per action; the ROk observations are exactly the acceptances;
+   samples appear exactly at the ASample positions; only an emit answers anything but RNone *)
+Theorem c08_acts_obs : forall fixed l s,
+  length (snd (acts fixed s l)) = length l /\
+  q_accepted (fst (acts fixed s l)) = q_accepted s + count_ok (map ob_result (snd (acts fixed s l))) /\
+  Forall2 (fun a o => (a = ASample <-> ob_sample o <> None) /\
+                      (ob_result o <> RNone -> a = AEmit)) l (snd (acts fixed s l)).
+Proof. exact acts_obs. Qed.
